@@ -4,8 +4,46 @@
 // This file contains no executable code; only the //@ lines are read.
 package transport
 
-// assumed interface contract: a successful dial yields a connection
+// assumed interface contract: a successful dial yields a connection, a failed one none
 //@ interface (t Transport) DialStream(ctx context.Context, peer *protocol.Node, kind protocol.Stream_Type) (r net.Conn, err error)
 //@   ensures err == nil ==> r != nil
 //@   ensures err != nil ==> r == nil
 //@ pure Transport.Identity
+//@ pure (*go.miragespace.co/specter/spec/protocol.Node).GetId
+
+// ---- C42: stream dispatch. The three handler tables are abstract maps (library model of sync.Map and
+// skipmap.Int32Map): virtual[kind] is a map from virtual node id to handler, physical[kind] and
+// tunnel[kind] are handlers.
+//@ macro hasVirtual(s *StreamRouter, kind protocol.Stream_Type, id uint64) bool = s.virtualChordHandlers.keys[int32(kind)] && s.virtualChordHandlers.m[int32(kind)] != nil && s.virtualChordHandlers.m[int32(kind)].keys[any(id)]
+//@ macro tablesOK(s *StreamRouter) bool = forall k int32 {s.virtualChordHandlers.m[k]} :: s.virtualChordHandlers.keys[k] ==> s.virtualChordHandlers.m[k] != nil
+//@ macro virtualOf(s *StreamRouter, kind protocol.Stream_Type, id uint64) any = s.virtualChordHandlers.m[int32(kind)].m[any(id)]
+
+//@ func (s *StreamRouter) HandleChord(kind protocol.Stream_Type, target *protocol.Node, handler StreamHandler)
+//@   safety off
+//@   opt frame=off
+//@   requires s != nil && s.virtualChordHandlers != nil && tablesOK(s)
+//@   ensures per-type-tables-stay-non-nil: tablesOK(s)
+//@   at call LoadOrStoreLazy#1: assert the-per-type-table-is-created-atomically: callarg1 == int32(kind)
+//@   ensures node-wide-handler-registered-under-its-type: target == nil ==> (s.physicalChordHandlers.keys[any(kind)] && s.physicalChordHandlers.m[any(kind)] == any(handler))
+//@   ensures virtual-node-handler-registered-under-type-and-node-id: target != nil ==> (hasVirtual(s, kind, target.GetId()) && virtualOf(s, kind, target.GetId()) == any(handler))
+
+//@ func (s *StreamRouter) HandleTunnel(kind protocol.Stream_Type, handler StreamHandler)
+//@   safety off
+//@   opt frame=off
+//@   requires s != nil
+//@   ensures client-handler-registered-under-its-type: s.tunnelHandlers.keys[any(kind)] && s.tunnelHandlers.m[any(kind)] == any(handler)
+
+//@ func (s *StreamRouter) acceptChord(ctx context.Context)
+//@   safety off
+//@   opt frame=off
+//@   requires s != nil && s.virtualChordHandlers != nil && tablesOK(s)
+//@   loop delegate: invariant tables: tablesOK(s) && s.virtualChordHandlers == old(s.virtualChordHandlers) && s.virtualChordHandlers != nil
+//@   at go dyn#1: assert stream-goes-to-the-virtual-nodes-handler-else-the-node-wide-one: ((hasVirtual(s, delegate.Kind, delegate.Identity.GetId()) && handler == virtualOf(s, delegate.Kind, delegate.Identity.GetId())) || (!hasVirtual(s, delegate.Kind, delegate.Identity.GetId()) && s.physicalChordHandlers.keys[any(delegate.Kind)] && handler == s.physicalChordHandlers.m[any(delegate.Kind)]))
+//@   at call Close#1: assert stream-is-closed-only-without-any-matching-handler: !hasVirtual(s, delegate.Kind, delegate.Identity.GetId()) && !s.physicalChordHandlers.keys[any(delegate.Kind)]
+
+//@ func (s *StreamRouter) acceptTunnel(ctx context.Context)
+//@   safety off
+//@   opt frame=off
+//@   requires s != nil
+//@   at go dyn#1: assert client-stream-goes-to-the-handler-of-its-type: s.tunnelHandlers.keys[any(delegate.Kind)] && handler == s.tunnelHandlers.m[any(delegate.Kind)]
+//@   at call Close#1: assert client-stream-is-closed-only-without-a-handler: !s.tunnelHandlers.keys[any(delegate.Kind)]
